@@ -106,6 +106,44 @@ def check_rollback(ck: Checker, rid: str, mod):
             reach = reachable(cfg, [e.dst for e in cfg.succ[rn.id] if e.kind == 'exc'])
             if cfg.exit_raise not in reach:
                 probs.append((rn, None))
+        # the rollback works on what start() has established so far:
+        # (a) state it iterates over / reads must not have been reset earlier in the same handler;
+        # (b) an attribute the stopper reads must be assigned before the first launch (or be handed over as argument)
+        state_probs = []
+        resets = {n.id for n in cfg.nodes if header_expr(n) is not None and any(dotted(c.func) == 'self._reset' for c in calls_in(header_expr(n)))}
+        for hn in [n for n in cfg.nodes if n.kind == 'except' and n.loops]:
+            hbody = reachable(cfg, [hn.id], edge_ok=lambda e: not e.is_exc)
+            for sid in stoppers & hbody:
+                pth = path_avoiding(cfg, [hn.id], {sid}, avoid=set())
+                if pth and any(k in resets for k in pth[:-1]):
+                    state_probs.append(f'L{cfg.nodes[sid].lineno}: the state is reset (`self._reset()`) before the rollback walks it: the loop that should stop the members started so far finds nothing to stop — they keep running, and the next start() asserts')
+        stopper_funcs = []
+        for n in cfg.nodes:
+            a = header_expr(n)
+            for c in (calls_in(a) if a is not None else []):
+                r, me = method_of(c)
+                if me in STOPPERS and is_name(r, 'self'):
+                    t = resolve_callable(c.func, f)
+                    if t is not None:
+                        stopper_funcs += self_closure(t)
+        read = {}
+        for g in stopper_funcs:
+            for x in walk_shallow_func(g.node):
+                if isinstance(x, ast.Attribute) and is_name(x.value, 'self') and isinstance(x.ctx, ast.Load):
+                    read.setdefault(x.attr, g)
+        assigned = {}
+        for n in cfg.nodes:
+            if n.kind == 'stmt' and isinstance(n.ast, ast.Assign):
+                for t in n.ast.targets:
+                    if isinstance(t, ast.Attribute) and is_name(t.value, 'self'):
+                        assigned.setdefault(t.attr, set()).add(n.id)
+        first_launch = min((rn.id for rn in raisers), default=None)
+        for attr, g in read.items():
+            if attr in assigned and first_launch is not None:
+                if path_avoiding(cfg, [cfg.entry], {first_launch}, avoid=assigned[attr]) is not None:
+                    state_probs.append(f'the rollback helper `{g.name}` reads `self.{attr}`, which start() assigns only after the launches: when a launch fails the helper finds the attribute missing (AttributeError instead of the real error, earlier workers keep running) or still holding the queue of the previous cycle')
+        if state_probs:
+            ck.ob(rid, f, (f.node.lineno, f'{cname}.start rollback state'), False, '; '.join(sorted(set(state_probs))))
         if probs:
             rn, p = probs[0]
             ck.ob(rid, f, rn.ast, False, f'when `{norm_text(rn.ast)[:50]}` fails after earlier workers/members were started, start() raises without stopping them: their threads/processes keep running' if p is not None else 'the launch failure is swallowed', path=fmt_path(cfg, [rn.id] + p) if p else '')
